@@ -14,6 +14,7 @@ func init() {
 		Title: "Logger context is exact and isolated across derived loggers",
 		Fn:    checkC07,
 		Explanation: "Decides that every derive operation (Logger/SugaredLogger With, WithLazy, Named, WithOptions, Sugar/Desugar; every Core.With; encoder Clone; slog WithAttrs/WithGroup; RegisterHooks; NewTee) is a pure function of its receiver: no store through the receiver in the method, its closures or (transitively) the helpers it passes the receiver to; no append onto a receiver-owned slice unless capacity-capped; the result is a fresh object or the untouched receiver; each wrapper core's With re-wraps wrapped.With(fields) with the same fields and copies every other field of its struct from the receiver (struct-copy completeness); the JSON encoder's clone takes a fresh pooled buffer and Clone copies the parent's bytes into it; ioCore.With adds fields to the clone only; name joining and propagation into the entry; the lazy core evaluates its fields exactly once, before any delegation. " +
+			"Also decided: multiCore.With on a two-branch tee yields branch[i].With(fields) in slot i on every path (whatever the branches currently enable); in every function of every package an append onto a slice owned by the receiver/an argument object - directly or through a helper that appends onto its parameter - is capacity-capped or the owner's own growth; the namespace counter accounts for the open braces and Clone carries it (see C01). " +
 			"NOT decided: that arbitrary derivation programs yield the expected field lists value by value (follows from purity plus order, but values are not compared); mutable user marshalers.",
 		Assumptions: commonAssumptions,
 	}
